@@ -201,6 +201,19 @@ impl<const N: usize> Events<N> {
         self.inner.lock(|state| state.borrow_mut().reset())
     }
 
+    /// Bytes in use in the debug, info and critical buffer, and the size `N` of each.
+    pub fn verif_heads(&self) -> (usize, usize, usize, usize) {
+        self.inner.lock(|state| {
+            let state = state.borrow();
+            (
+                state.buf_debug.head,
+                state.buf_info.head,
+                state.buf_critical.head,
+                N,
+            )
+        })
+    }
+
     /// Visit the queued events in the order `fetch` iterates them: event number and priority.
     pub fn verif_visit(&self, mut f: impl FnMut(EventNumber, u8)) {
         self.fetch(|events| {
